@@ -692,6 +692,9 @@ func main() {
 	}
 	for i := 0; i < nr; i++ {
 		iv := vlib.Pick(r, intervals)
+		if r.Chance(2, 5) { // boundary-biased: intervals at and next to 60 s / 12, / 8, / 4, / 2, the minimum, other units
+			iv = vlib.Pick(r, boundaryIntervals)
+		}
 		n := 5 + r.Intn(56)
 		ideal := r.Chance(1, 3)
 		mood := r.Intn(3) // 0 mostly failing, 1 mostly fine, 2 mixed
@@ -759,6 +762,10 @@ func main() {
 		rjobs = append(rjobs, job{iv, timeoutFor(iv), true, ops, "retried"})
 	}
 	emit(c, runAll(rjobs, 128))
+
+	// ---- fleets: many endpoints on one checker (numbers of due endpoints around the concurrency constants, mixed
+	// priorities and boundary intervals); every endpoint's projection is judged like a single-endpoint history
+	fleets(c, r.Fork(), thorough)
 
 	slowWG.Wait()
 	emit(c, slowRes)
